@@ -190,13 +190,17 @@ def rule_typecmp(model: Model, funcs: list[Func]) -> list[Ob]:
 
 # --------------------------------------------------------------------------- DEFASSIGN
 
-def rule_defassign(model: Model, funcs: list[Func], exceptions: dict | None = None, status=VIOLATED) -> list[Ob]:
+def rule_defassign(model: Model, funcs: list[Func], exceptions: dict | None = None, status=VIOLATED, domain: dict | None = None) -> list[Ob]:
     """DEFASSIGN: every local is definitely assigned at each use on the guard-correlated flow graph.
-    Domain assumption: order d >= 1 (range(len(x)) loops run at least once)."""
+    Domain assumption: order d >= 1 (range(len(x)) loops run at least once); `domain` fixes further guards by the property's quantifier."""
     exceptions = exceptions or {}
     obs = []
     for f in funcs:
-        bad = definite_assignment(f.node)
+        dom = domain
+        if domain == "quantifier":
+            from .flow import quantifier_domain
+            dom = quantifier_domain(f.node)
+        bad = definite_assignment(f.node, dom)
         names_bad = {}
         for u in bad:
             names_bad.setdefault(u.name, u)
@@ -243,6 +247,27 @@ def _dead_nodes(fn):
             for s in blocks:
                 for x in ast.walk(s):
                     dead.add(id(x))
+    # statements after one that always leaves the block (return / raise, an `if` whose taken branches all leave) are never executed
+
+    def leaves(st):
+        if isinstance(st, (ast.Return, ast.Raise)):
+            return True
+        if isinstance(st, ast.If):
+            cb = const_bool(st.test)
+            b = bool(st.body) and leaves(st.body[-1]) if cb is not False else True
+            o = bool(st.orelse) and leaves(st.orelse[-1]) if cb is not True else True
+            return b and o
+        return False
+    for n in ast.walk(fn):
+        for fld in ("body", "orelse", "finalbody"):
+            blk = getattr(n, fld, None)
+            if isinstance(blk, list) and blk and isinstance(blk[0], ast.stmt):
+                for i, st in enumerate(blk[:-1]):
+                    if leaves(st):
+                        for rest in blk[i + 1:]:
+                            for x in ast.walk(rest):
+                                dead.add(id(x))
+                        break
     return dead
 
 
